@@ -468,6 +468,21 @@ fn sign_seed_keypair(i: &Input) -> Outcome {
     eq("SigningKeyPair::from_seed secret key", &wsk, kp.secret_key.as_ref())
 }
 
+/// sk (64 bytes, any second half): `SigningKeyPair::from_secret_key` rebuilds libsodium's pair from the seed half — the
+/// public key recomputed from a secret key — whatever the caller's (possibly stale, zero or foreign) public half holds.
+fn sign_from_secret_key(i: &Input) -> Outcome {
+    use dryoc::sign::{PublicKey, SecretKey, SigningKeyPair};
+    let sk = i.arr::<64>("sk");
+    let mut seed = [0u8; 32];
+    seed.copy_from_slice(&sk[..32]);
+    let (wpk, wsk) = so::sign_seed_keypair(&seed);
+    let kp: SigningKeyPair<PublicKey, SecretKey> = SigningKeyPair::from_secret_key(SecretKey::from(sk));
+    eq("SigningKeyPair::from_secret_key public key", &wpk, kp.public_key.as_ref())?;
+    eq("SigningKeyPair::from_secret_key secret key", &wsk, kp.secret_key.as_ref())?;
+    let signed = must_ok(kp.sign_with_defaults(b"from_secret_key".to_vec()), "sign with the rebuilt pair")?;
+    must_ok(signed.verify(&PublicKey::from(wpk)), "signature of the rebuilt pair under libsodium's public key")
+}
+
 /// Honest Ed25519 pair from a seed -> X25519 pair.
 fn ed_to_curve(i: &Input) -> Outcome {
     let seed = i.arr::<32>("seed");
@@ -525,6 +540,7 @@ pub const C13: Registry = &[
     ("box_seed_keypair", box_seed_keypair),
     ("kx_seed_keypair", kx_seed_keypair),
     ("sign_seed_keypair", sign_seed_keypair),
+    ("sign_from_secret_key", sign_from_secret_key),
     ("ed25519_to_curve25519", ed_to_curve),
     // same body, honest keys selected by the byte pattern of their public key
     ("ed25519_to_curve25519_pk_class", ed_to_curve),
@@ -548,6 +564,29 @@ pub fn c13(ctx: &mut Ctx) -> Search {
             };
             ctx.run("box_seed_keypair", Input::new().b("seed", &seed))?;
         }
+    }
+    // block boundaries of the SHA-512 that hashes a box seed: lengths around 128 (and, for robustness, 256) in both tiers
+    for len in [111usize, 112, 119, 120, 127, 128, 129, 255, 256, 257] {
+        let seed = ctx.rng.bytes(len);
+        ctx.run("box_seed_keypair", Input::new().b("seed", &seed))?;
+    }
+    // secret keys whose public half is honest, zero, all ones, random, or the public key of another seed
+    for k in 0..(if t { 40 } else { 8 }) {
+        let seed: [u8; 32] = ctx.rng.arr();
+        let (pk, sk) = so::sign_seed_keypair(&seed);
+        let mut v = sk.to_vec();
+        match k % 5 {
+            0 => {}
+            1 => v[32..].fill(0),
+            2 => v[32..].fill(0xff),
+            3 => ctx.rng.fill(&mut v[32..]),
+            _ => {
+                let other: [u8; 32] = ctx.rng.arr();
+                v[32..].copy_from_slice(&so::sign_seed_keypair(&other).0);
+            }
+        }
+        let _ = pk;
+        ctx.run("sign_from_secret_key", Input::new().b("sk", &v))?;
     }
     let n = if t { 2000 } else { 100 };
     let mut seeds: Vec<[u8; 32]> = vec![[0u8; 32], [0xffu8; 32]];
